@@ -26,7 +26,9 @@ PROP = {
             "precedence traps) through the real parser, AST dump compared with the Lean Pratt parser over the extracted "
             "binding-power table. Every case is non-trivial (nt); distinct = distinct case line.",
     "assumptions": [
-        "queries are well-typed (comparisons within one type category); the engine is dynamically typed and answers FALSE where the spec has no opinion",
+        "comparisons across type categories (number / text / boolean) are type errors: the spec rejects the statement statically, the "
+        "engine (since repo d38f132) when the comparison meets two non-NULL values; generated cross-category comparisons are the whole "
+        "WHERE of a single-table statement over a row where both sides are non-NULL, before any DML of the case",
         "an arithmetic error (overflow, division by zero, value not fitting the result column) can be raised by at most one clause of a "
         "single-table statement in generated cases: which failing sub-expression is reported, and whether rows that are joined away or cut "
         "off by LIMIT are evaluated, depends on plan and pipelining (SQL leaves evaluation order open)",
